@@ -72,6 +72,14 @@ UsersSpec == {"u", "\"a\"\"b\"", "\"\"\"a\""}
 PiecesSpec == {"M", "qq", "sq"}
 UsersAll  == {"u", "bob_1", "\"u\"", "\"with password\"", "\"pass'word\"", "\"a b\"", "\"a\\\"b\"",
               "\"password for\"", "\"with password x\"", "\"\""} \cup UsersEq \cup UsersCase
+\* LONG names and gaps: a pattern with a bounded repetition, a fixed window or a chunked reader shows at a length
+\* (around 64 and 128 here; the source dictionary of the tree under check names the constants in the dict slices)
+RECURSIVE Rep(_, _)
+Rep(x, n) == IF n = 0 THEN "" ELSE x \o Rep(x, n - 1)
+LongLens == {61, 62, 63, 64, 65, 66, 127, 128, 129, 130}
+UsersLong == {"u" \o Rep("x", n - 1) : n \in LongLens} \cup {"\"" \o Rep("y", n) \o "\"" : n \in {63, 64, 65, 129}}
+GapsLong == {Rep(" ", n) : n \in LongLens \cup {1}} \cup {Rep("\n", 64), Rep("\t", 65), Rep(" \n", 33)}
+GapsLongFew == {" ", Rep(" ", 63), Rep(" ", 65), Rep("\n", 130)}
 QuoteSingle == "'"
 QuoteDouble == "\""
 PiecesDq == {"M", "sp", "eq", "semi"}
